@@ -192,11 +192,7 @@ fn cmd_session(m: &BTreeMap<String, String>) {
             let mut s = String::new();
             for (ri, text) in std::mem::take(&mut log.texts) {
                 let r = &reqs_for_dump[ri];
-                // engine P parses source text: None-delimited groups are dissolved (for whole
-                // types, which is all the generator wraps, the flat text is valid where the
-                // grouped tokens are)
-                let r = if r.has_none_group() { r.flattened() } else { r.clone() };
-                s.push_str(&serde_json::json!({"id": r.id(), "mode": r.mode, "attr": r.attr, "item": r.item, "out": text}).to_string());
+                s.push_str(&dump_line(r, &text));
                 s.push('\n');
             }
             let _ = std::fs::write(d, s);
@@ -234,13 +230,92 @@ fn cmd_exec_plan(m: &BTreeMap<String, String>) {
             let mut s = String::new();
             for (ri, text) in std::mem::take(&mut log.texts) {
                 let r = &reqs_for_dump[ri];
-                s.push_str(&serde_json::json!({"id": r.id(), "mode": r.mode, "attr": r.attr, "item": r.item, "out": text}).to_string());
+                s.push_str(&dump_line(r, &text));
                 s.push('\n');
             }
             let _ = std::fs::write(d, s);
         }
         let _ = std::fs::write(&out, serde_json::to_string(&log).unwrap());
     });
+}
+
+/// One line of a session dump for engine P: the request, the printed output, and the built-in
+/// attributes of the output that are not token-identical to an attribute of the input (what the
+/// expander itself wrote or rewrote; rustc validates those beyond what its item parser checks).
+fn dump_line(r: &req::Request, text: &str) -> String {
+    let new_attrs = new_builtin_attrs(r, text);
+    // expression fragments: no parse of the printed output by engine P (whether a compiler honours
+    // such a group in a macro's output has changed between versions), attribute probe only
+    let attrs_only = r.has_expr_none_group();
+    // engine P parses source text: None-delimited groups are dissolved (for whole types the flat
+    // text is valid where the grouped tokens are)
+    let orig = r.clone();
+    let r = if r.has_none_group() { r.flattened() } else { r.clone() };
+    serde_json::json!({"id": r.id(), "mode": r.mode, "attr": r.attr, "item": r.item, "out": text, "new_attrs": new_attrs,
+        "attrs_only": attrs_only, "orig_attr": orig.attr, "orig_item": orig.item}).to_string()
+}
+
+const BUILTIN_ATTRS: &[&str] = &[
+    "cfg", "cfg_attr", "doc", "repr", "allow", "warn", "deny", "forbid", "expect", "inline", "must_use", "deprecated",
+    "non_exhaustive", "automatically_derived", "track_caller", "cold", "no_mangle", "link_section", "export_name", "path",
+    "macro_use", "macro_export", "ignore", "should_panic", "target_feature", "link", "link_name", "no_std", "recursion_limit",
+    "type_length_limit", "windows_subsystem", "used", "global_allocator", "panic_handler", "debugger_visualizer",
+];
+
+fn new_builtin_attrs(r: &req::Request, out_text: &str) -> Vec<String> {
+    use quote::ToTokens;
+    use syn::visit::Visit;
+    struct V {
+        builtin_only: bool,
+        found: std::collections::BTreeSet<String>,
+    }
+    impl<'a> Visit<'a> for V {
+        fn visit_attribute(&mut self, a: &'a syn::Attribute) {
+            let name = a.path().segments.last().map(|s| s.ident.to_string()).unwrap_or_default();
+            if !self.builtin_only || (a.path().segments.len() == 1 && BUILTIN_ATTRS.contains(&name.as_str())) {
+                let t: String = req::flatten(a.to_token_stream()).to_string().split_whitespace().collect();
+                self.found.insert(t);
+            }
+        }
+    }
+    let Ok(out) = syn::parse_str::<syn::File>(out_text) else {
+        return vec![];
+    };
+    let mut o = V { builtin_only: true, found: Default::default() };
+    o.visit_file(&out);
+    if o.found.is_empty() {
+        return vec![];
+    }
+    let mut i = V { builtin_only: false, found: Default::default() };
+    if let Some(ts) = req::lex(&r.item) {
+        if let Ok(f) = syn::parse2::<syn::File>(req::flatten(ts)) {
+            i.visit_file(&f);
+        }
+    }
+    // printed with ordinary spacing again for the probe
+    let mut res = Vec::new();
+    if let Ok(out) = syn::parse_str::<syn::File>(out_text) {
+        struct P<'b> {
+            known: &'b std::collections::BTreeSet<String>,
+            res: &'b mut Vec<String>,
+            seen: std::collections::BTreeSet<String>,
+        }
+        impl<'a, 'b> Visit<'a> for P<'b> {
+            fn visit_attribute(&mut self, a: &'a syn::Attribute) {
+                let name = a.path().segments.last().map(|s| s.ident.to_string()).unwrap_or_default();
+                if a.path().segments.len() == 1 && BUILTIN_ATTRS.contains(&name.as_str()) && matches!(a.style, syn::AttrStyle::Outer) {
+                    let flat = req::flatten(a.to_token_stream()).to_string();
+                    let key: String = flat.split_whitespace().collect();
+                    if !self.known.contains(&key) && self.seen.insert(key) && flat.len() < 2000 {
+                        self.res.push(flat);
+                    }
+                }
+            }
+        }
+        let mut p = P { known: &i.found, res: &mut res, seen: Default::default() };
+        p.visit_file(&out);
+    }
+    res
 }
 
 fn cmd_replay(m: &BTreeMap<String, String>) {
@@ -591,20 +666,36 @@ fn macro_rules_wrapper(r: &req::Request) -> Option<String> {
                 TokenTree::Group(g) if g.delimiter() == Delimiter::None => {
                     let inner = req::flatten(g.stream());
                     let text = inner.to_string();
-                    if text.contains('$') || text.trim().is_empty() || text.trim() == "_" {
+                    if text.contains('$') || text.trim() == "_" {
                         w.bad = true;
                     }
                     let is_expr = syn::parse2::<syn::Expr>(inner.clone()).is_ok();
                     let is_ty = syn::parse2::<syn::Type>(inner.clone()).is_ok();
-                    let kind = match (in_attr, is_expr, is_ty) {
-                        (true, true, _) => "expr",
-                        (true, false, true) => "ty",
-                        (false, _, true) => "ty",
-                        (false, true, false) => "expr",
-                        _ => {
-                            w.bad = true;
-                            "tt"
-                        }
+                    let is_lit = syn::parse2::<syn::Lit>(inner.clone()).is_ok();
+                    let is_meta = syn::parse2::<syn::Meta>(inner.clone()).is_ok();
+                    let is_vis = text.trim().is_empty()
+                        || (text.trim_start().starts_with("pub") && syn::parse2::<syn::Visibility>(inner.clone()).is_ok());
+                    // what follows decides between a type and an expression outside attributes:
+                    // `= <expr>` (discriminant, const default) and `; <expr> ]` (array length)
+                    let after_eq_or_semi = i > 0
+                        && matches!(&v[i - 1], TokenTree::Punct(p) if p.as_char() == '=' || p.as_char() == ';');
+                    let kind = if is_vis && !in_attr {
+                        "vis"
+                    } else if in_attr && is_lit {
+                        "literal"
+                    } else if in_attr && is_expr {
+                        "expr"
+                    } else if in_attr && is_meta {
+                        "meta"
+                    } else if !in_attr && after_eq_or_semi && is_expr {
+                        "expr"
+                    } else if is_ty {
+                        "ty"
+                    } else if is_expr {
+                        "expr"
+                    } else {
+                        w.bad = true;
+                        "tt"
                     };
                     let name = format!("f{}", w.frags.len());
                     w.frags.push((kind, text));
